@@ -865,6 +865,105 @@ func specPathValue(style PathStyle, name, val string) string {
 //@   ensures nolabel: d.style == PathStyleLabel && (old(d.cur.pos) >= len(d.cur.src) || d.cur.src[old(d.cur.pos)] != '.') ==> err != nil
 
 // ---------------------------------------------------------------------------
+// 2e. Channel harness (property C01, path parameter of primitive shape): what the generated client
+//     does (NewPathEncoder, EncodeValue, Result), the transport/router/handler step that hands the
+//     percent-decoded segment to the decoder (url.PathUnescape; the router's extraction is C05, the
+//     normalization C12), and what the generated server does (NewPathDecoder, DecodeValue).
+// ---------------------------------------------------------------------------
+
+//@ func verifPathValueChannel(param string, style PathStyle, explode bool, v string) (out string, err error)
+//@   requires style:    style == PathStyleSimple || style == PathStyleLabel
+//@   requires nonempty: len(v) > 0
+//@   uses pathEscapeInverse, pathUnescapePlainPrefix
+//@   ensures delivered: err == nil && out == v
+func verifPathValueChannel(param string, style PathStyle, explode bool, v string) (string, error) {
+	e := NewPathEncoder(PathEncoderConfig{Param: param, Style: style, Explode: explode})
+	if err := e.EncodeValue(v); err != nil {
+		return "", err
+	}
+	s, err := e.Result()
+	if err != nil {
+		return "", err
+	}
+	u, err := url.PathUnescape(s)
+	if err != nil {
+		return "", err
+	}
+	return NewPathDecoder(PathDecoderConfig{Param: param, Value: u, Style: style, Explode: explode}).DecodeValue()
+}
+
+// ---------------------------------------------------------------------------
+// 2f. uri/url.go: AddPathParts (property C01: the request path the client sends)
+// ---------------------------------------------------------------------------
+
+// verifEscPath: the escaped form net/url gives a path that has no RawPath of its own
+// ((&url.URL{Path: p}).EscapedPath()); uninterpreted in proofs, executable in replays.
+//@ func verifEscPath(p string) (r string)
+//@   trusted wrapper around net/url; only its inverse law is assumed (lemma escPathInverse)
+//@   pure
+func verifEscPath(p string) string { return (&url.URL{Path: p}).EscapedPath() }
+
+//@ extern func (u *url.URL) EscapedPath() (r string)
+//@   ensures plain: u.RawPath == "" ==> r == verifEscPath(u.Path)
+
+//@ lemma escPathInverse(p string)
+//@   trusted net/url: EscapedPath() of a URL without RawPath is escape(Path, encodePath), which PathUnescape inverts
+//@   ensures inv: verifUnescOK(verifEscPath(p)) && verifUnescVal(verifEscPath(p)) == p
+//@   trigger verifEscPath(p)
+
+func hasPct(s string) bool { return indexB(s, '%') >= 0 }
+
+// unescCat: what AddPathParts appends to Path: parts without '%' verbatim, the others unescaped.
+func unescCat(parts []string) string {
+	if len(parts) == 0 {
+		return ""
+	}
+	if hasPct(parts[0]) {
+		return verifUnescVal(parts[0]) + unescCat(parts[1:])
+	}
+	return parts[0] + unescCat(parts[1:])
+}
+
+func catAll(parts []string) string {
+	if len(parts) == 0 {
+		return ""
+	}
+	return parts[0] + catAll(parts[1:])
+}
+
+// anyPct: one of the first n parts contains '%'.
+func anyPct(parts []string, n int) bool {
+	return vExistsIn(0, n, func(k int) bool { return vTrig(parts[k]) && hasPct(parts[k]) })
+}
+
+func allUnescOK(parts []string) bool {
+	return vForallIn(0, len(parts), func(k int) bool { return verifUnescOK(parts[k]) })
+}
+
+// AddPathParts: Path grows by the unescaped parts; as soon as an escaped part (or an inherited
+// RawPath) exists, RawPath is maintained and stays CONSISTENT with Path: it unescapes without error
+// to exactly Path. net/url's EscapedPath() sends RawPath only when that holds (and RawPath is a
+// valid encoding); otherwise it re-escapes Path, and an escaped '/' inside a parameter value would
+// be sent as a path separator.
+//@ func AddPathParts(u *url.URL, parts []string)
+//@   requires nonnil: u != nil
+//@   requires parts:  allUnescOK(parts)
+//@   requires rawok:  u.RawPath != "" ==> verifUnescOK(u.RawPath) && verifUnescVal(u.RawPath) == u.Path
+//@   modifies u.Path, u.RawPath
+//@   uses pathUnescapeCat, pathUnescapePlain, escPathInverse, indexBRange, indexBFirst
+//@   ensures path:       u.Path == old(u.Path) + unescCat(parts)
+//@   ensures plain:      old(u.RawPath) == "" && !anyPct(parts, len(parts)) ==> u.RawPath == ""
+//@   ensures consistent: u.RawPath != "" ==> verifUnescOK(u.RawPath) && verifUnescVal(u.RawPath) == u.Path
+//@   ensures rawmode:    (old(u.RawPath) != "" || anyPct(parts, len(parts))) && len(old(u.Path)) + len(old(u.RawPath)) > 0 ==> u.RawPath != ""
+//@   loop 0 vars rangeindex int, writeRaw bool, path *strings.Builder, rawPath *strings.Builder
+//@   loop 0 invariant range: -1 <= rangeindex && rangeindex < len(parts)
+//@   loop 0 invariant path:  path.String() + unescCat(parts[rangeindex+1:]) == old(u.Path) + unescCat(parts)
+//@   loop 0 invariant mode:  writeRaw == (old(u.RawPath) != "" || anyPct(parts, rangeindex+1))
+//@   loop 0 invariant raw:   writeRaw ==> verifUnescOK(rawPath.String()) && verifUnescVal(rawPath.String()) == path.String()
+//@   loop 0 invariant noraw: !writeRaw ==> rawPath.String() == ""
+//@   loop 0 invariant len:   writeRaw && len(old(u.Path)) + len(old(u.RawPath)) > 0 ==> len(rawPath.String()) > 0
+
+// ---------------------------------------------------------------------------
 // 3. Lemmas
 // ---------------------------------------------------------------------------
 
